@@ -48,6 +48,37 @@ def oracle_case(ctx, s, w, pol, kind, v, log):
                       py_value=v, **info)
 
 
+def many_regex_schemas(ctx):
+    """more than 200 distinct regex schemas faked in ONE process through d42.fake (whatever the generator keeps between
+    patterns), each judged by its own validation"""
+    import random as _random
+    pats = []
+    for i in range(120):
+        a, b, c = chr(97 + i % 26), chr(65 + (i * 7) % 26), str(i % 10)
+        pats += ["^[^%s%s%s]{2}$" % (a, b, c), "^[^%s-%s_]$" % (a, chr(min(122, ord(a) + 3))), "^%s[%s%s]%d$" % (a, b, c, i)]
+    st = _random.getstate()
+    try:
+        _random.seed(777)
+        for rnd_round in range(2):
+            for p in pats:
+                ctx.count("many_regex_schema_fakes")
+                try:
+                    s = schema.str.regex(p)
+                    v = fake(s)
+                except Exception:  # noqa: BLE001
+                    continue
+                try:
+                    errs = validate(s, v).get_errors()
+                except Exception as e:  # noqa: BLE001
+                    errs = [e]
+                if errs:
+                    ctx.violation("fake returned a value its own schema rejects", schema=safe_repr(s), value=safe_repr(v),
+                                  errors=[safe_repr(e) for e in errs[:3]], note="after many other regex schemas were faked in this process")
+                    return
+    finally:
+        _random.setstate(st)
+
+
 def chain_built(ctx):
     """whatever refinement chains the tree under test ACCEPTS (every ordered pair / some triples of refinements of the
     C11 universes, with and without a value first) paired with a witness found by trying a small universe of candidate
@@ -140,6 +171,7 @@ def run(ctx):
             ctx.count("corpus_build_exception:" + type(e).__name__)
     corpus = built + valcases.scalar_corpus() + [
         (schema.uuid4, SR.FIXED_UUIDS[0]), (schema.date, SR.FIXED_TODAY), (schema.datetime, SR.FIXED_NOW)]
+    many_regex_schemas(ctx)
     pairs = corpus + chain_built(ctx) + pairs
     cases = []
     for s, w in pairs:
